@@ -423,7 +423,7 @@ pub fn def() -> PropertyDef {
     PropertyDef {
         id: "C07",
         level: "exploration",
-        rule: "A generated DNS universe (2..7 zones below root hints, depth <= 5, 1..3 NS hosts per zone, in-bailiwick with glue or out-of-bailiwick in an earlier zone with or without glue, hosts v4-only / v6-only / dual, sometimes two addresses per family, data incl. empty non-terminals, wildcards, CNAMEs inside and across zones, to missing names) is served by a mock transport (hook H2) whose servers answer per RFC 1034 4.3.2 computed by R-ZONE (referrals with glue, AA answers, NODATA/NXDOMAIN with SOA, CNAME with or without in-server chasing, TC over UDP above 512 octets). A case is a session of 1..6 questions (existing and missing names and types, apexes, NS host names, aliases) sharing one cache, with the cache clock (hook H1) advancing 0 s..4000 s between questions so that cached delegations and answers age and expire, in a protocol mode under which every zone is reachable. Oracle: result = ground truth computed globally (alias chain in order ++ final RRset as multiset, TTL <= authoritative, SOA of the final zone iff the final set is empty), and per question the zones asked get strictly deeper (TCP retry at the same server excepted). Non-trivial = some question needed >= 2 referrals, a glueless NS lookup, an alias chain, or was answered from cache left by an earlier question. Distinct by hash of the case.",
+        rule: "A generated DNS universe (2..7 zones below root hints, depth <= 5, 1..3 NS hosts per zone, in-bailiwick with glue or out-of-bailiwick in an earlier zone with or without glue, hosts v4-only / v6-only / dual, sometimes two addresses per family, data incl. empty non-terminals, wildcards, CNAMEs inside and across zones, to missing names) is served by a mock transport (hook H2) whose servers answer per RFC 1034 4.3.2 computed by R-ZONE (referrals with glue, AA answers, NODATA/NXDOMAIN with SOA, CNAME with or without in-server chasing, TC over UDP above 512 octets). A case is a session of 1..6 questions (existing and missing names and types, apexes, NS host names, aliases) sharing one cache, with the cache clock (hook H1) advancing 0 s..4000 s between questions so that cached delegations and answers age and expire, in a protocol mode under which every zone is reachable. Oracle: result = ground truth computed globally (alias chain in order ++ final RRset as multiset, TTL <= authoritative, SOA of the final zone iff the final set is empty), and the zones asked about the session's question get strictly deeper (TCP retry at the same server excepted), as do those asked within one attempt at a nameserver-address look-up. Non-trivial = some question needed >= 2 referrals, a glueless NS lookup, an alias chain, or was answered from cache left by an earlier question. Distinct by hash of the case.",
         assumptions: vec![
             "consistent universes: parent NS set = child NS set, glue = real address, every server answers",
             "CNAME and ANY questions at alias names are outside the comparison (D4)",
